@@ -53,7 +53,7 @@ theorem write_hasBody_mono (g : Cfg) (r : R) (d : Bytes) (h : r.hasBody = true) 
 
 theorem flushOp_hasBody (g : Cfg) (r : R) : (flushOp g r).hasBody = r.hasBody := by
   unfold flushOp
-  rw [flushBodyBuf_hasBody, flushBuf_hasBody, eoncodeHead_hasBody, checkChunked_hasBody]
+  rw [flushBodyBuf_hasBody, flushBuf_hasBody, eoncodeHead_hasBody, markDelim_hasBody, checkChunked_hasBody]
   exact writeHeader_hasBody r 200 stOK
 
 theorem runB_hasBody (g : Cfg) (ops : List BOp) (r : R)
@@ -89,5 +89,51 @@ theorem runB_hasBody (g : Cfg) (ops : List BOp) (r : R)
     | setH k v => simp only [runB, BOp.toOp, step] at h ⊢; exact ih _ h
     | addH k v => simp only [runB, BOp.toOp, step] at h ⊢; exact ih _ h
     | delH k => simp only [runB, BOp.toOp, step] at h ⊢; exact ih _ h
+
+/-- `closeDelim` is set by Flush only -/
+theorem runB_closeDelim_noflush (g : Cfg) (ops : List BOp) (r : R) (hnf : ∀ op ∈ ops, op ≠ .flush) :
+    (runB g r ops).1.closeDelim = r.closeDelim := by
+  induction ops generalizing r with
+  | nil => rfl
+  | cons op t ih =>
+    have hnf' : ∀ op ∈ t, op ≠ .flush := fun o ho => hnf o (List.mem_cons_of_mem _ ho)
+    cases op with
+    | write d =>
+      simp only [runB]
+      have := write_closeDelim g r d
+      generalize write g r d = p at *
+      obtain ⟨r', w⟩ := p
+      dsimp only at this ⊢
+      rw [ih r' hnf', this]
+    | flush => exact absurd rfl (hnf .flush (List.mem_cons_self ..))
+    | setH k v => simp only [runB, BOp.toOp, step]; exact ih _ hnf'
+    | addH k v => simp only [runB, BOp.toOp, step]; exact ih _ hnf'
+    | delH k => simp only [runB, BOp.toOp, step]; exact ih _ hnf'
+
+/-- …and never reset -/
+theorem runB_closeDelim_mono (g : Cfg) (ops : List BOp) (r : R) (h : r.closeDelim = true) :
+    (runB g r ops).1.closeDelim = true := by
+  induction ops generalizing r with
+  | nil => exact h
+  | cons op t ih =>
+    cases op with
+    | write d =>
+      simp only [runB]
+      have := write_closeDelim g r d
+      generalize write g r d = p at *
+      obtain ⟨r', w⟩ := p
+      dsimp only at this ⊢
+      exact ih r' (by rw [this]; exact h)
+    | flush =>
+      simp only [runB, BOp.toOp, step]
+      apply ih
+      unfold flushOp
+      simp only [flushBodyBuf_closeDelim, flushBuf_closeDelim, eoncodeHead_closeDelim]
+      apply markDelim_mono
+      unfold writeHeader200
+      simp [h]
+    | setH k v => simp only [runB, BOp.toOp, step]; exact ih _ h
+    | addH k v => simp only [runB, BOp.toOp, step]; exact ih _ h
+    | delH k => simp only [runB, BOp.toOp, step]; exact ih _ h
 
 end Resp
